@@ -59,6 +59,28 @@ void profile_cfg_more(const std::string &prof, uint64_t seed, RunCfg &c, Rng &r)
     c.allow_cancel_in_cb = 0;
     c.beh_w = {45, 4, 2, 0, 3, 0, 5, 35, 4, 1, 1, 0, 1, 0, 0};
     c.qcache_max_ttl = 0;
+  } else if (prof == "C17") {
+    c.allow_cancel_in_cb = 0;
+    int f = ARES_FLAG_EDNS | ARES_FLAG_NOALIASES | ARES_FLAG_NOSEARCH;
+    if (r.chance(0.4)) f |= ARES_FLAG_STAYOPEN;
+    if (r.chance(0.15)) f |= ARES_FLAG_DNS0x20;
+    c.flags = f;
+    c.tries = 2 + (int)r.below(2); c.timeout_ms = 300 + (int)r.below(700); c.maxtimeout_ms = -1;
+    c.rotate = 0; c.udp_max_queries = r.chance(0.8) ? -1 : 2 + (int)r.below(3);
+    c.qcache_max_ttl = 0; c.retry_chance = 0; c.retry_delay = 0;
+    c.set_domains = 1; c.domains.clear(); c.lookups = "b";
+    if (c.servers.size() > 2) c.servers.resize(2);
+    static const int modes[] = {CK_NONE, CK_GOOD, CK_GOOD, CK_CHANGING, CK_WRONG_CLIENT, CK_SHORT, CK_LONG, CK_BADCOOKIE_ONCE, CK_BADCOOKIE_ALWAYS, CK_BADCOOKIE_NOCOOKIE, CK_REGRESS, CK_REGRESS};
+    for (auto &sv : c.servers) sv.cookie_mode = modes[r.below(sizeof modes / sizeof *modes)];
+    c.beh_w = {92, 0, 0, 0, 2, 1, 5, 0, 0, 0, 0, 0, 0, 0, 0};
+    c.zone_w = {80, 10, 10, 0};
+    c.server_source = 0; c.resolv_conf = "nameserver 10.99.99.99\n";
+    c.knobs["kind_mask"] = (1 << K_SEND_DNSREC) | (1 << K_QUERY_DNSREC) | (1 << K_QUERY) | (1 << K_GETADDRINFO);
+    c.knobs["single_family"] = 1;
+    c.sock_create_cb = 0; c.sock_config_cb = 0; c.pending_write_cb = 0;
+    c.faults = 1;
+    c.min_delay = 300; c.max_delay = 20000;
+    if (r.chance(0.25)) c.t0_us -= c.t0_us % 1000000;   // usec == 0 instants matter for "is the timestamp set" tests
   } else if (prof == "C09") {
     c.allow_cancel_in_cb = 0;
     c.servers.clear();
@@ -257,6 +279,24 @@ bool profile_plan_more(const RunCfg &c, Rng &r, std::vector<Step> &plan) {
   if (p == "C03") { gen(c, r, plan, weights({{S_REQ, 40}, {S_ADV, 45}, {S_CHUNK, 10}, {S_STALL, 1}, {S_FAULT, 2}}), 20, 120); for (auto &s : plan) if (s.k == S_FAULT) { s.a = FC_SEND; s.b = 0; s.c = 2 + 4 * (r.chance(0.5) ? 1 : 0) + 16 * (int64_t)r.below(20); } return true; }
   if (p == "C06") { gen(c, r, plan, weights({{S_REQ, 22}, {S_ADV, 50}, {S_STALL, 4}, {S_NETOP, 6}, {S_FAULT, 10}, {S_PARTITION, 3}, {S_SETSRV, 3}, {S_REINIT, 1}, {S_CHUNK, 2}}), 20, 120); return true; }
   if (p == "C07") { gen(c, r, plan, weights({{S_REQ, 25}, {S_ADV, 60}, {S_STALL, 8}, {S_NETOP, 4}, {S_PARTITION, 3}, {S_CANCEL, 1}}), 20, 140); return true; }
+  if (p == "C17") {
+    std::vector<int> w = weights({{S_REQ, 34}, {S_ADV, 44}, {S_STALL, 12}, {S_SRCADDR, 3}, {S_COOKIECTL, 7}});
+    int n = 30 + (int)r.below(120);
+    static const int64_t waits[] = {500, 5000, 30000, 60000, 119000, 119999, 120000, 120001, 121000, 150000, 299000, 300000, 301000, 600000, 86399000, 86400000, 86401000, 3600000};
+    for (int i = 0; i < n; i++) {
+      Step s; s.k = r.pick(w); if (!s.k) s.k = S_ADV;
+      s.a = (int64_t)r.below(1000); s.b = (int64_t)r.below(1000); s.c = (int64_t)r.below(1000000); s.d = (int64_t)r.below(1000);
+      if (s.k == S_ADV) { s.a = 0; s.b = 0; }
+      if (s.k == S_STALL) {
+        s.a = waits[r.below(sizeof waits / sizeof *waits)];
+        static const int64_t secs[] = {1, 1, 2, 30, 119, 120, 121, 122, 300, 86400};
+        if (r.chance(0.45)) s.a = -secs[r.below(sizeof secs / sizeof *secs)];   // negative: land exactly on a whole second (usec == 0), that many seconds on
+      }
+      if (s.k == S_REQ) s.d = (s.d / R_NREACT) * R_NREACT + R_NONE;
+      plan.push_back(s);
+    }
+    return true;
+  }
   if (p == "C09") {
     gen(c, r, plan, weights({{S_REQ, 30}, {S_ADV, 48}, {S_STALL, 6}, {S_PARTITION, 6}, {S_HEAL, 2}, {S_SETSRV, 4}, {S_FAULT, 4}}), 25, 150);
     for (auto &s : plan) {
@@ -523,6 +563,155 @@ static void c06_after(Run &run) {
       if (rounds < 40) { long long ub = 5000LL << rounds; if (wait_ms > ub) run.violate("C06", "wait_above_envelope", "attempt in round " + std::to_string(rounds) + " waits " + std::to_string(wait_ms) + " ms > 5000 * 2^round"); }
       if (rounds >= 1) run.note("attempt_in_later_round");
     }
+  }
+}
+
+// ---------------------------------------------------------------------------------------------
+// C17: DNS cookies follow the RFC 7873 client state machine
+// ---------------------------------------------------------------------------------------------
+static std::string cookie_of(const dnsref::Msg &m) {
+  if (const dnsref::RR *o = m.opt()) for (auto &op : o->opts) if (op.code == 10) return op.data;
+  return std::string();
+}
+static bool has_cookie_opt(const dnsref::Msg &m) {
+  if (const dnsref::RR *o = m.opt()) for (auto &op : o->opts) if (op.code == 10) return true;
+  return false;
+}
+static void c17_end(Run &run) {
+  if (run.cfg.profile != "C17") return;
+  size_t ns = W.servers.size();
+  struct SrvModel {
+    std::string cc; int64_t cc_since = -1; std::string src_ip;
+    bool stopped_sending = false;            // a cookie-less EDNS query went out since cc was adopted
+    std::set<std::string> sc_allowed;        // server cookies the client may echo
+    bool sc_known = false;                   // a valid server cookie has certainly been accepted (delivered)
+    int64_t first_missing = -1;              // first cookie-less/invalid-cookie response read after support was proven
+    bool saw_cookieless = false;             // a response without a valid cookie was read while support was not (or no longer) established
+    bool ever_cookieless = false;            // the server has, at some point, answered without a valid cookie (every legitimate reset starts from such an answer)
+    bool proven = false;
+  };
+  std::vector<SrvModel> M(ns);
+  // events in call-log order: transmissions and reads of responses
+  struct Ev { uint32_t seq; int kind; int idx; int sub; };
+  std::vector<Ev> evs;
+  for (size_t i = 0; i < W.txs.size(); i++) evs.push_back({W.txs[i].seq, 0, (int)i, 0});
+  for (size_t i = 0; i < W.resps.size(); i++) for (size_t k = 0; k < W.resps[i].read_seqs.size(); k++) evs.push_back({W.resps[i].read_seqs[k], 1, (int)i, (int)k});
+  std::stable_sort(evs.begin(), evs.end(), [](const Ev &a, const Ev &b) { return a.seq < b.seq; });
+  // which responses were certainly accepted: their markers reached a callback
+  std::set<int> delivered_resp;
+  for (auto &r : run.reqs) for (uint32_t m : r.markers) { auto it = W.marker_resp.find(m); if (it != W.marker_resp.end()) delivered_resp.insert(it->second); }
+  std::map<std::string, int> badcookie_reads;   // qid|qname -> BADCOOKIE responses read on the query's current socket
+  std::map<std::string, int> last_fd;           // qid|qname -> socket of the latest transmission
+  std::map<std::string, std::string> last_ck;   // qid|qname -> COOKIE option of the latest transmission (what a response is validated against)
+  std::map<std::string, bool> awaiting;         // qid|qname -> transmitted and no answer consumed since (a consumed answer detaches the query until it is re-sent)
+  std::map<std::string, int> udp_after_three;   // qid|qname -> udp transmissions after the third BADCOOKIE
+  for (auto &e : evs) {
+    if (e.kind == 0) {
+      const Tx &t = W.txs[(size_t)e.idx];
+      if (t.server < 0 || !t.decode_err.empty() || t.msg.qd.empty()) continue;
+      SrvModel &m = M[(size_t)t.server];
+      std::string ck = cookie_of(t.msg);
+      if (t.tcp) {
+        run.note("cookie_tcp_frame_checked");
+        if (has_cookie_opt(t.msg)) { run.violate("C17", "cookie_sent_over_tcp", "TCP frame for " + t.qname_lc + " carries a COOKIE option"); return; }
+        continue;
+      }
+      std::string key = std::to_string(t.msg.id) + "|" + t.qname_lc;
+      last_fd[key] = t.fd;
+      last_ck[key] = ck;
+      awaiting[key] = true;
+      if (badcookie_reads[key] >= 3) { run.violate("C17", "no_tcp_fallback_after_badcookie", "query " + t.qname_lc + " was sent over UDP again after three BADCOOKIE answers"); return; }
+      if (!t.msg.opt()) continue;                              // EDNS downgraded: nothing to say
+      if (!has_cookie_opt(t.msg)) { m.stopped_sending = true; continue; }
+      run.note("cookie_tx_checked");
+      if (ck.size() < 8 || ck.size() > 40 || (ck.size() > 8 && ck.size() < 16)) { run.violate("C17", "malformed_cookie_sent", "COOKIE option of " + std::to_string(ck.size()) + " bytes sent for " + t.qname_lc); return; }
+      std::string cc = ck.substr(0, 8), sc = ck.substr(8);
+      if (m.cc.empty()) { m.cc = cc; m.cc_since = t.t; m.src_ip = t.src_ip; m.stopped_sending = false; }
+      else if (cc != m.cc) {
+        // a new client cookie: only at a permitted rotation point
+        bool src_changed = t.src_ip != m.src_ip;
+        bool aged = t.t - m.cc_since >= 86400LL * 1000000;
+        // starting over is permitted after the client stopped sending cookies, after the regression period, or once it has read
+        // a response that carried no (valid) cookie while this client cookie was in use and support was not established
+        bool reset_ok = m.stopped_sending || (m.first_missing >= 0 && t.t - m.first_missing >= 120LL * 1000000) || m.saw_cookieless || m.ever_cookieless;
+        run.note("client_cookie_rotated");
+        if (src_changed) run.note("client_cookie_rotated_source_change");
+        if (aged) run.note("client_cookie_rotated_age");
+        if (!src_changed && !aged && !reset_ok) { run.violate("C17", "client_cookie_changed", "client cookie for server " + std::to_string(t.server) + " changed after " + std::to_string((t.t - m.cc_since) / 1000000) + " s without a source-address change, a day passing or a permitted reset (query " + t.qname_lc + ", " + hexs(m.cc) + " -> " + hexs(cc) + ")"); return; }
+        m.cc = cc; m.cc_since = t.t; m.src_ip = t.src_ip; m.stopped_sending = false;
+        m.sc_allowed.clear(); m.sc_known = false; m.first_missing = -1; m.proven = false; m.saw_cookieless = false;
+        if (!sc.empty()) { run.violate("C17", "server_cookie_kept_across_rotation", "a server cookie was sent together with a freshly generated client cookie (" + t.qname_lc + ")"); return; }
+      } else if (t.src_ip != m.src_ip && run.cfg.sockfuncs != 2) {   // without a getsockname function the library cannot know its address
+        run.violate("C17", "client_cookie_kept_after_source_change", "source address changed from " + m.src_ip + " to " + t.src_ip + " but the client cookie for server " + std::to_string(t.server) + " stayed the same");
+        return;
+      }
+      if (!sc.empty()) {
+        if (!m.sc_allowed.count(sc)) { run.violate("C17", "unknown_server_cookie_sent", "server cookie echoed to server " + std::to_string(t.server) + " for " + t.qname_lc + " was never received with the current client cookie"); return; }
+      } else if (m.sc_known) {
+        run.violate("C17", "server_cookie_not_echoed", "a server cookie from server " + std::to_string(t.server) + " had been accepted, but " + t.qname_lc + " was sent without it"); return;
+      }
+    } else {
+      const Resp &rs = W.resps[(size_t)e.idx];
+      if (rs.server < 0 || rs.tcp || rs.forged || rs.tainted) continue;
+      SrvModel &m = M[(size_t)rs.server];
+      std::string key = std::to_string(rs.msg.id) + "|" + (rs.tx >= 0 ? W.txs[(size_t)rs.tx].qname_lc : std::string());
+      std::string ck = cookie_of(rs.msg);
+      if (getenv("SIM_DBG_C17")) fprintf(stderr, "C17 read t=%lld srv=%d resp#%d rcode=%d ck=%s fd=%d proven=%d cc=%s\n", (long long)rs.read_times[(size_t)e.sub], rs.server, rs.id, rs.rcode, hexs(ck).c_str(), rs.fd, (int)m.proven, hexs(m.cc).c_str());
+      // a response is judged against the client cookie of the query it answers (which may predate a rotation)
+      std::string qck = last_ck.count(key) ? last_ck[key] : (rs.tx >= 0 ? cookie_of(W.txs[(size_t)rs.tx].msg) : std::string());
+      bool valid = ck.size() >= 16 && ck.size() <= 40 && qck.size() >= 8 && ck.substr(0, 8) == qck.substr(0, 8);
+      bool on_current_socket = last_fd.count(key) && last_fd[key] == rs.fd;
+      if (rs.rcode == 23 && ck.size() >= 8 && ck.size() <= 40 && qck.size() >= 8 && ck.substr(0, 8) == qck.substr(0, 8) && on_current_socket && awaiting[key]) { badcookie_reads[key]++; awaiting[key] = false; }
+      if (valid && ck.substr(0, 8) != m.cc) continue;                 // answers a query sent before the rotation: not learned from
+      if (valid && !on_current_socket) { m.sc_allowed.insert(ck.substr(8)); continue; }   // may or may not have been looked at
+      if (valid) {
+        m.sc_allowed.insert(ck.substr(8));
+        if (delivered_resp.count(rs.id)) { m.sc_allowed.clear(); m.sc_allowed.insert(ck.substr(8)); m.sc_known = true; m.proven = true; m.first_missing = -1; run.note("server_cookie_learned"); }
+      } else if (!m.proven && rs.rcode != 23) {
+        m.saw_cookieless = true; m.ever_cookieless = true;
+      } else if (m.proven && rs.rcode != 23) {
+        m.ever_cookieless = true;
+        if (m.first_missing < 0) m.first_missing = rs.read_times[(size_t)e.sub];
+        bool in_window = rs.read_times[(size_t)e.sub] - m.first_missing < 120LL * 1000000;
+        if (delivered_resp.count(rs.id) && in_window && !ck.empty()) { /* invalid cookie present */ }
+        if (delivered_resp.count(rs.id) && in_window) {
+          // was the delivering query transmitted with a cookie at all?  (after a downgrade it carries none and nothing is checked)
+          bool q_has = qck.size() >= 8;   // the query as last transmitted
+          if (q_has) { run.violate("C17", "cookieless_reply_accepted", "server " + std::to_string(rs.server) + " had proven cookie support; a reply " + (ck.empty() ? "without a cookie" : "with an invalid cookie") + " was accepted " + std::to_string((rs.read_times[(size_t)e.sub] - m.first_missing) / 1000000) + " s into the 120 s regression period"); return; }
+        }
+        run.note("cookieless_reply_after_support");
+      }
+    }
+  }
+  // bounded liveness: a query first sent later than 120 s after the first cookie-less reply must get its answer delivered
+  for (auto &r : run.reqs) {
+    if (!r.accepted || r.kind == K_GETADDRINFO) continue;
+    if (r.status != ARES_ETIMEOUT) continue;
+    // only requests during whose life the application kept running its loop (a stalled application times queries out by itself)
+    bool stalled = false;
+    for (auto &st : run.stalls) if (st.second > r.t_submit && st.first < (r.t_done < 0 ? W.now_us : r.t_done) && st.second - st.first > 100000) stalled = true;
+    if (stalled) continue;
+    bool all_regressed_long_ago = true; bool any = false;
+    for (int i = r.tx_at_submit; i < (r.tx_at_done < 0 ? (int)W.txs.size() : r.tx_at_done); i++) {
+      const Tx &t = W.txs[(size_t)i];
+      if (t.token != r.token || t.server < 0) continue;
+      any = true;
+      if (W.servers[(size_t)t.server].cfg.cookie_mode != CK_REGRESS) all_regressed_long_ago = false;
+    }
+    if (!any || !all_regressed_long_ago) continue;
+    // find the regression start of each server used: the time regress was switched on and the first cookie-less read after it
+    bool old_enough = true;
+    for (size_t sidx = 0; sidx < ns; sidx++) {
+      if (W.servers[sidx].cfg.cookie_mode != CK_REGRESS) continue;
+      // F = first cookie-less reply read after the last reply that carried a server cookie (any such reply re-proves support
+      // and restarts the regression period)
+      int64_t last_valid = -1, fm = -1;
+      for (auto &rs : W.resps) if (rs.server == (int)sidx && !rs.tcp && !rs.read_times.empty() && cookie_of(rs.msg).size() >= 16) for (int64_t t : rs.read_times) if (t > last_valid) last_valid = t;
+      for (auto &rs : W.resps) if (rs.server == (int)sidx && !rs.tcp && !rs.read_times.empty() && cookie_of(rs.msg).empty() && rs.rcode != 23) for (int64_t t : rs.read_times) if (t > last_valid && (fm < 0 || t < fm)) fm = t;
+      if (fm < 0 || r.t_submit < fm + 121LL * 1000000 || !W.servers[sidx].regress_active) old_enough = false;
+      for (auto &ce : run.cookie_ctl) if (ce.server == (int)sidx && ce.t > fm) old_enough = false;   // support toggled again meanwhile: no claim
+    }
+    if (old_enough) { run.violate("C17", "no_fallback_after_regression_period", "request " + std::to_string(r.token) + " (" + r.name + ") was first sent more than 120 s after the server stopped returning cookies, the server answered every transmission, yet the request timed out (replies still ignored)"); return; }
   }
 }
 
@@ -912,6 +1101,12 @@ static void c05_arrival(Run &run, Resp &rs, VFd &sock) {
   }
   rs.acceptable = 1;
   rs.defect &= ~DEF_STALE;
+  if (!rs.forged && (rs.defect & DEF_BAD_COOKIE)) {
+    // a genuine server with broken cookie handling: its cookie only matters while the query itself carries one
+    bool has = false;
+    if (last) if (const dnsref::RR *o = last->msg.opt()) for (auto &op : o->opts) if (op.code == 10 && op.data.size() >= 8) has = true;
+    if (!has) rs.defect &= ~DEF_BAD_COOKIE;
+  }
   if (rs.forged && (rs.forge_variant == 8 || rs.forge_variant == 9)) {
     // cookie defects only count against a query whose latest transmission carries a client cookie (after the server was
     // classified as not supporting cookies the query is re-sent without one and response cookies are no longer examined)
@@ -1203,6 +1398,25 @@ void profile_attach_more(Run &run) {
   auto prev_after = run.after_step;
   run.after_step = [prev_after, p](Run &r) { if (prev_after) prev_after(r); c06_after(r); if (r.cfg.mode == 0) c10_after(r); };
   if (p == "C09") run.at_end = c09_end;
+  if (p == "C17") {
+    run.at_end = c17_end;
+    run.extra_step = [](Run &r, const Step &s) {
+      if (s.k == S_SRCADDR) {
+        W.client_ip4.a[3] = (uint8_t)(10 + (W.client_ip4.a[3] + 1 + s.a % 7) % 200);
+        W.client_ip6.a[15] = (uint8_t)(10 + (W.client_ip6.a[15] + 1 + s.a % 7) % 200);
+        // sockets that stay open keep their address; close idle ones by letting the library see a receive error is not needed:
+        // the library only learns its address when it opens a connection
+        r.note("source_address_changed");
+      } else if (s.k == S_COOKIECTL) {
+        if (W.servers.empty()) return;
+        size_t i = (size_t)s.a % W.servers.size();
+        if (W.servers[i].cfg.cookie_mode != CK_REGRESS) return;
+        W.servers[i].regress_active = !W.servers[i].regress_active;
+        r.cookie_ctl.push_back({W.now_us, (int)i, W.servers[i].regress_active ? 1 : 0});
+        r.note(W.servers[i].regress_active ? "cookie_support_withdrawn" : "cookie_support_restored");
+      }
+    };
+  }
   if (p == "C12") {
     run.world_ready.push_back([](Run &r) {
       Run *rp = &r;
@@ -1248,6 +1462,7 @@ bool profile_nontrivial(const Run &run) {
   if (p == "C12") return base && get("search_walk_multi_candidate") > 0;
   if (p == "C13") return base && get("address_set_checked") > 0;
   if (p == "C09") return base && get("selection_with_failed_servers") > 0;
+  if (p == "C17") return base && get("cookie_tx_checked") > 0 && get("server_cookie_learned") > 0;
   if (p == "C20") return base && get("differential_compared") > 0 && (W.stat.count("send_short") || W.stat.count("recv_short") || W.stat.count("send_eagain_window") || W.stat.count("recv_eagain_injected") || get("zero_length_datagram") > 0 || !W.fault_fired.empty());
   if (p == "C01") return base && (get("req_from_callback") + get("cancel_in_callback") + get("cancel_with_outstanding") > 0 || !W.fault_fired.empty());
   return base;
@@ -1257,6 +1472,7 @@ const char *profile_rule(const std::string &prof) {
   if (prof == "C03") return "runs are seeded plans (requests by name / setter-built multi-record messages / legacy builder, transport chunking so frames queue behind unsent bytes); non-trivial = at least one setter-built frame or one delivered answer was compared with the reference codec; distinct = distinct trace-shape hash";
   if (prof == "C06") return "runs are seeded plans over per-attempt server outcomes, option extremes (tries up to 100, timeouts 1 ms..INT_MAX, maxtimeout below the floor), list edits; non-trivial = at least one attempt's wait was checked against the envelope and traffic was processed; distinct = distinct trace-shape hash";
   if (prof == "C07") return "runs are seeded plans with silent/slow servers and sleep-exactly/overshoot/stall steps; non-trivial = the hint was compared with a real deadline and at least one loop turn ran with an expired deadline; distinct = distinct trace-shape hash";
+  if (prof == "C17") return "runs are seeded histories against servers with scripted cookie behaviour (none, valid, changing, wrong client part, short/long, BADCOOKIE once/always/without cookie, support withdrawn and restored), source-address changes and clock jumps placed around 120 s / 300 s / 1 day (including exact-second instants); a reference RFC 7873 client model judges every COOKIE option seen at the virtual server and every delivered answer; non-trivial = cookies were sent and at least one server cookie was learned; distinct = distinct trace-shape hash";
   if (prof == "C09") return "runs are seeded success/failure histories over 1..6 servers (silence, error rcodes, partitions, open/connect/receive failures), rotation on/off, failover options (retry chance 0/1/n, retry delay 0/short/long), server-list edits in flight and clock advances across the retry delay; a reference health table is driven by the public server-state callback stream and every UDP transmission must go to a server the policy allows or be a legal probe copy; non-trivial = at least one transmission was judged while some server had failures; distinct = distinct trace-shape hash";
   if (prof == "C13") return "runs are seeded sets of getaddrinfo/gethostbyname/gethostbyaddr/getnameinfo requests (families, hint flags, ports, sortlists, lookup orders, hosts-file names, literals, localhost) against answers with 1..40 unique marker addresses, CNAME chains, other-family and foreign-class records in the answer section and address records in the additional section, with faults on the source-address discovery used for sorting; non-trivial = at least one DNS-answered address set was compared as a multiset with the accepted answers; distinct = distinct trace-shape hash";
   if (prof == "C12") return "runs are seeded sets of search/getaddrinfo/gethostbyname requests over name shapes (0..4 dots, trailing dot, long labels, names that stop fitting once a domain is appended, host aliases) x ndots x domain lists (incl. root) x flags, with a per-candidate outcome (data, NODATA, NXDOMAIN, SERVFAIL, REFUSED, timeout) fixed by keyed hash; the question names seen at the virtual server and the final status are compared with an independent resolv.conf(5) reference; non-trivial = at least one request whose reference candidate list has more than one entry was checked; distinct = distinct trace-shape hash";
